@@ -514,9 +514,11 @@ def distance_specs(r_nominal=None, lo=0.001, hi=2000.0):
             r = draw(st.one_of(
                 st.floats(math.log10(lo), math.log10(hi)).map(
                     lambda e: 10.0 ** e),
-                st.floats(math.log10(0.1), math.log10(hi)).map(
-                    lambda e: 10.0 ** e),
-                st.sampled_from([0.1, 1.0, 5.0, 15.0, 100.0, 300.0, 2000.0])))
+                st.floats(math.log10(min(max(lo, 0.1), hi)),
+                          math.log10(hi)).map(lambda e: 10.0 ** e),
+                st.sampled_from([v for v in (0.001, 0.01, 0.1, 1.0, 5.0, 15.0,
+                                             100.0, 300.0, 2000.0)
+                                 if lo <= v <= hi])))
         else:
             r = r_nominal
         style = draw(st.sampled_from(["number", "number", "space", "space",
@@ -709,7 +711,12 @@ def binned_cases(draw):
 
 @st.composite
 def history_cases(draw):
-    distance = draw(distance_specs())
+    # "jitter": thresholds of metres and copies displaced by about the
+    # threshold - the cached spatial index of the original must not serve
+    # the copy although the coordinates agree to 1e-5
+    jitter = draw(st.sampled_from([False, False, True]))
+    distance = draw(distance_specs(lo=0.001, hi=0.05) if jitter
+                    else distance_specs())
     r_km = float(radius_km_exact(distance))
     interval = draw(interval_specs())
     m_s = interval["seconds"]
@@ -722,9 +729,12 @@ def history_cases(draw):
     # derived sets: slightly displaced copies (what a cached index must not
     # be reused for) and exact copies under new ids
     n_der = draw(st.integers(1, 2))
+    derived_from = []
     for d in range(n_der):
         src = draw(st.integers(0, n_base - 1))
-        f = draw(st.sampled_from([0.0, 0.5, 1.0 - 1e-3, 1.0 + 1e-3, 3.0]))
+        derived_from.append(src)
+        f = draw(st.sampled_from([0.5, 1.0 + 1e-3, 3.0] if jitter else
+                                 [0.0, 0.5, 1.0 - 1e-3, 1.0 + 1e-3, 3.0]))
         bearing = draw(st.sampled_from(P.BEARINGS + [45.0]))
         sets.append(P.shifted(sets[src], f * r_km, bearing,
                               10000 * (d + 1)))
@@ -738,8 +748,20 @@ def history_cases(draw):
     prev = None
     for _ in range(nsteps):
         mode = draw(st.sampled_from(["any", "any", "same", "swap",
-                                     "keep-primary", "keep-secondary"]))
-        if prev is None or mode == "any":
+                                     "keep-primary", "keep-secondary",
+                                     "displaced", "displaced"]))
+        if prev is not None and mode == "displaced":
+            # replace one side by its displaced copy / its original
+            twins = {}
+            for d in range(n_der):
+                twins.setdefault(derived_from[d], []).append(n_base + d)
+                twins.setdefault(n_base + d, []).append(derived_from[d])
+            a, b = prev
+            if a in twins and (b not in twins or draw(st.booleans())):
+                a = draw(st.sampled_from(twins[a]))
+            elif b in twins:
+                b = draw(st.sampled_from(twins[b]))
+        elif prev is None or mode in ("any", "displaced"):
             a = draw(st.integers(0, len(sets) - 1))
             b = draw(st.integers(0, len(sets) - 1))
         elif mode == "same":
